@@ -582,6 +582,24 @@ def promoted_str(F, c):
                         cc = op_const(o)
                         if cc is not None and "str" in cc:
                             return cc["str"]
+    if "uneval" in c and "promoted" not in c:
+        # a named constant item (`const PLUTUS_WITNESS_DIRECTIVE: &str = "plutus_witness";`): its initialiser
+        body = getattr(F, "ctfe", {}).get(c["uneval"])
+        if body is not None:
+            vals = set()
+            for bi, b in enumerate(body["blocks"]):
+                for s in b["s"]:
+                    if s["lhs"]["l"] == 0 and not s["lhs"]["p"]:
+                        for o in all_operands_of_rv(s["rv"]):
+                            cc = op_const(o)
+                            if cc is not None and "str" in cc:
+                                vals.add(cc["str"])
+                            elif cc is not None and ("uneval" in cc):
+                                v = promoted_str(F, cc) if cc.get("uneval") != c["uneval"] or "promoted" in cc else None
+                                if v is not None:
+                                    vals.add(v)
+            if len(vals) == 1:
+                return next(iter(vals))
     return None
 
 
